@@ -292,7 +292,9 @@ class DomainValueExtractor:
             if dao_instance is not None:
                 return dao_instance.id if hasattr(dao_instance, "id") else dao_instance
 
-        return sample
+        raise DomainExtractionError(
+            f"Cannot resolve {sample!r} to a row of {dao_class.__name__}."
+        )
 
 
 @dataclass
